@@ -1,7 +1,7 @@
 (* The entry point SPDCConfig::try_as_spdc = optional up-front wavelength validation + the conversion steps.
    [validates] is read off the source by the generator (Gen/ConfigSites.v: cfg_validates_wavelengths). *)
 From Coq Require Import String List Bool ZArith QArith.
-From SpdVerif Require Import Base.CfgNumOps Spec.ConfigSpec Gen.ConfigTables Model.ConfigTypes Model.Config Proofs.C17_rules.
+From SpdVerif Require Import Base.CfgNumOps Spec.ConfigSpec Gen.ConfigTables Gen.ConfigSites Model.ConfigTypes Model.Config Proofs.C17_rules Proofs.C17_finite.
 Import ListNotations.
 
 Section Entry.
@@ -50,6 +50,41 @@ Section Entry.
   Theorem validated_no_panic c :
     scale_order -> searches_total K -> is_panic (try_as_spdc o U K minpos rj true c) = false.
   Proof. intros Hlaw Htot. apply validated_no_panic_at; [exact Hlaw | apply searches_total_at; exact Htot]. Qed.
+  (* the results of the searches this configuration runs are DEFINED (finite): the hypothesis of the finiteness clause.  (It implies
+     searches_defined_at; once the solver cannot fail it is no longer needed for "never panics", only for "nothing non-finite".) *)
+  Definition search_results_defined_at (c : spdc_cfg num) : Prop :=
+    (forall b e cs, o_snell_inv K b e cs <> None) /\
+    (forall signal, signal_step o K c = Ok signal ->
+       (is_auto (cc_theta_deg (c_crystal c)) = true -> c_pp c = PCOff ->
+          forall e, o_snell_ext K signal (cfg_cs0 o c) = Some e ->
+                    o_nm_theta K (erase_theta o (cfg_cs0 o c)) e signal (cfg_pump o c) <> None) /\
+       (cfg_checks_total_reflection = false -> is_auto (cc_theta_deg (c_crystal c)) = true -> c_pp c = PCOff ->
+          o_snell_ext K signal (cfg_cs0 o c) <> None) /\
+       (forall a, c_pp c = PCConfig Auto a -> searches_cannot_fail = false -> o_nm_period K signal (cfg_pump o c) (cfg_cs0 o c) <> None)).
+
+  Lemma search_results_defined_searches c : search_results_defined_at c -> searches_defined_at o K c.
+  Proof.
+    intros [H1 H2]. split; [intros _; exact H1 |]. intros signal Hs. destruct (H2 signal Hs) as (Ha & Hb & Hc). split.
+    - intros Hau Hoff. split.
+      + intros Hf _. exact (Hb Hf Hau Hoff).
+      + intros _ e He. exact (Ha Hau Hoff e He).
+    - exact Hc.
+  Qed.
+
+  (* the property's first sentence on a tree that validates: Ok with nothing non-finite, or Err; never a panic *)
+  Theorem validated_ok_finite_or_err_at c :
+    scale_order -> search_results_defined_at c -> geometry_defined_at o K minpos rj c ->
+    (forall signal, signal_step o K c = Ok signal -> neqb o (o_dkz0 K signal (cfg_pump o c) (cfg_cs0 o c)) (n0 o) = false) ->
+    (exists s, try_as_spdc o U K minpos rj true c = Ok (s, [])) \/ (exists e, try_as_spdc o U K minpos rj true c = Err e).
+  Proof.
+    intros Hlaw Htot Hgeo Hz. pose proof (validated_no_panic_at c Hlaw (search_results_defined_searches c Htot)) as Hnp.
+    destruct (try_as_spdc o U K minpos rj true c) as [[s nf] | e | st] eqn:Hr.
+    - left. exists s. revert Hr. unfold try_as_spdc. cbn [andb]. destruct (cfg_le o c); [discriminate |].
+      intros Hr. rewrite (finite_at num o U K minpos rj c s nf Hgeo Hz Hr). reflexivity.
+    - right. exists e. reflexivity.
+    - discriminate.
+  Qed.
 End Entry.
 
 Arguments scale_order {num} o.
+Arguments search_results_defined_at {num} o K c.
